@@ -14,7 +14,7 @@ KEYWORD_IDENTS = ["default", "new", "register", "int", "union", "namespace", "de
                   "template", "typename", "char", "short", "long", "signed", "unsigned", "auto", "volatile", "inline",
                   "restrict", "typedef", "switch", "case", "goto", "void", "float", "double", "var", "function",
                   "with", "export", "import", "package", "object", "fun", "val", "when", "is", "and", "or", "not", "def",
-                  "lambda", "None", "pass", "from", "global", "del", "interface", "throw", "try_", "catch", "finally",
+                  "lambda", "pass", "from", "global", "del", "interface", "throw", "try_", "catch", "finally",
                   "instanceof", "null", "undefined", "arguments", "eval", "yield_", "friend", "private",
                   "public", "protected", "explicit", "mutable", "asm", "bool_", "wchar_t", "nullptr",
                   "alignas", "decltype", "constexpr", "noexcept", "static_assert", "thread_local", "NULL", "errno",
@@ -71,17 +71,29 @@ def prims(p):
     return st.sampled_from(xs)
 
 
-def idents(p):
+# Identifier shapes behind the C09 known findings (known_findings.json); the generator steers around them and
+# dedicated probes keep confirming them.
+JS_RESERVED_PARAMS = {"Function", "arguments", "await_", "case", "catch", "class", "default", "delete", "eval", "export", "finally",
+                      "function", "import", "instanceof", "interface", "new", "null", "package", "private", "protected", "public",
+                      "switch", "this", "throw", "try_", "var", "void", "with", "yield_"}
+MACRO_NAMES = {"NULL", "errno"}
+PARAM_COLLISIONS = {"result", "this"}
+
+
+def idents(p, position="other"):
     if p.get("keywords"):
-        return st.one_of(st.sampled_from(PLAIN_IDENTS), st.sampled_from(KEYWORD_IDENTS), st.sampled_from(KEYWORD_IDENTS))
+        kws = [k for k in KEYWORD_IDENTS if k not in MACRO_NAMES]
+        if position == "param":
+            kws = [k for k in kws if k not in PARAM_COLLISIONS and (k not in JS_RESERVED_PARAMS or not p.get("steer_js_params", True))]
+        return st.one_of(st.sampled_from(PLAIN_IDENTS), st.sampled_from(kws), st.sampled_from(kws))
     return st.sampled_from(PLAIN_IDENTS)
 
 
 @st.composite
-def unique_idents(draw, p, n, avoid=()):
+def unique_idents(draw, p, n, avoid=(), position="other"):
     out = []
     seen = set(avoid)
-    pool = idents(p)
+    pool = idents(p, position)
     for i in range(n):
         x = draw(pool)
         k = 0
@@ -388,7 +400,7 @@ def methods(draw, u, it, name):
     elif sk == "val":
         slf = ["val"]
     n = draw(st.integers(0, p.get("max_params", 4)))
-    pnames = draw(unique_idents(p, n + 1, avoid=["self", "this"]))
+    pnames = draw(unique_idents(p, n + 1, avoid=["self", "this"], position="param"))
     params = []
     for i in range(n):
         if p["callbacks"] and draw(st.integers(0, 9)) == 0:
@@ -465,6 +477,11 @@ def programs(draw, p):
             kw = draw(unique_idents(p, nm))
             mnames = [k if draw(st.booleans()) else m for k, m in zip(kw, mnames)]
             mnames = list(dict.fromkeys(mnames))
+        if it["kind"] == "enum" and p.get("steer_field_method_clash", True):
+            mnames = [m for m in mnames if m not in ("value", "Value")]
+        if it["kind"] == "struct" and p.get("steer_field_method_clash", True):
+            fnames = {f[0] for f in it["fields"]}
+            mnames = [m for m in mnames if m not in fnames]
         ms = [draw(methods(u, it, m)) for m in mnames]
         if ms:
             nimpl = 2 if len(ms) >= 2 and draw(st.integers(0, 3)) == 0 else 1
@@ -551,7 +568,7 @@ CFG_ATOMS = ["*", "c", "cpp", "js", "dart", "kotlin", "nanobind", "demo_gen", "n
 
 
 @st.composite
-def decorate(draw, prog, abi=True, rename=True, disable=True, density=4):
+def decorate(draw, prog, abi=True, rename=True, disable=True, density=4, namespace=False):
     """randomly place abi_rename / rename / disable attributes; returns the list of placements (for labels)"""
     placed = []
     counter = [0]
@@ -575,6 +592,9 @@ def decorate(draw, prog, abi=True, rename=True, disable=True, density=4):
             if rename and maybe():
                 it["attrs"].append('#[diplomat::attr(%s, rename = "%s")]' % (draw(st.sampled_from(CFG_ATOMS)), fresh("Renamed" + it["name"])))
                 placed.append("rename:type")
+            if namespace and maybe():
+                it["attrs"].append('#[diplomat::attr(auto, namespace = "%s")]' % draw(st.sampled_from(["ns1", "ns2", "ns1::inner", "outer::mid::deep"])))
+                placed.append("namespace:type")
             for impl in it.get("impls", []):
                 if abi and maybe():
                     impl["attrs"].append('#[diplomat::abi_rename = "%s"]' % draw(st.sampled_from(ABI_PATTERNS[:4])))
